@@ -44,6 +44,7 @@ class Block:
 def build(S):
     from contracts import dispatch
     dispatch.prove_dispatch(S)
+    prove_cell_parameters(S)
     S.function(REL, 'Atoms.load_p1_cif')
 
     def run_decisions():
@@ -541,4 +542,62 @@ def _term_decode(S):
             S.add_probe(I, "%s/probe/hypotheses-consistent#%d" % (tag, pi), p.pc)
     if nret == 0:
         raise OutOfSubset("term decoding has no normal path")
+    S.add_interp_obligations(I)
+
+
+# ------------------------------------------------------------------------------------------------
+# Atoms.cell_abc_alpha_beta_gamma: which cell vectors each of the six parameters is computed from
+def prove_cell_parameters(S):
+    S.function(REL, 'Atoms.cell_abc_alpha_beta_gamma')
+    S.guarded('cell parameters', lambda: _cell_parameters(S))
+
+
+def _cell_parameters(S):
+    """Data-flow contract (numpy / norm / arccos uninterpreted): a, b, c are computed from cell row 0, 1, 2 alone; alpha from rows (1, 2), beta from
+    rows (0, 2), gamma from rows (0, 1) -- the crystallographic convention the CIF tags _cell_angle_alpha / beta / gamma and cellpar_to_cell use.
+    What the formula is (length = sqrt(v.v), angle = arccos of the normalised dot product) is checked by the bounded stage against an independent
+    computation and against ASE."""
+    from pyvc.values import Opaque
+    from pyvc.models_py import ObjS, opaque_call
+    I = S.interp()
+    models_py.install(I)
+    models_py.install_opaque_algebra(I)
+    I.models['libcall.fallback'] = lambda ctx, name, args, kwargs: opaque_call(I, name, args, kwargs, record=False)
+    mod = I.module(REL)
+    clo = I.closure_for(REL, 'Atoms.cell_abc_alpha_beta_gamma')
+    cell = Opaque(z3.Const('the_cell', ObjS), 'cell')
+
+    def thunk():
+        me = I.state.alloc('Atoms', {'__class__': 'Atoms', '__module__': mod, 'cell': cell})
+        return I.call_closure(clo, [me], {})
+    paths = I.explore(thunk)
+    if len(paths) != 1 or paths[0].outcome != 'return' or not isinstance(paths[0].value, (tuple, list)) or len(paths[0].value) != 6:
+        raise OutOfSubset("cell_abc_alpha_beta_gamma does not return six values on one path")
+
+    def rows_used(term):
+        out, stack, seen = set(), [term], set()
+        while stack:
+            t = stack.pop()
+            if t.get_id() in seen:
+                continue
+            seen.add(t.get_id())
+            if z3.is_app(t) and t.decl().name().endswith('getitem') and t.num_args() == 2 and z3.eq(t.arg(0), cell.term):
+                idx = t.arg(1)
+                digits = [c for c in idx.children()] if z3.is_app(idx) else []
+                if len(digits) == 1 and z3.is_int_value(digits[0]):
+                    out.add(digits[0].as_long())
+                    continue
+                raise OutOfSubset("cell indexed with something else than a constant row number: %s" % idx)
+            elif z3.is_app(t) and z3.eq(t, cell.term):
+                out.add('whole cell')
+            stack.extend(t.children())
+        return out
+    want = [{0}, {1}, {2}, {1, 2}, {0, 2}, {0, 1}]
+    names = ['a', 'b', 'c', 'alpha', 'beta', 'gamma']
+    for k, (v, w) in enumerate(zip(paths[0].value, want)):
+        if not isinstance(v, Opaque):
+            raise OutOfSubset("cell parameter %s is not computed from the cell" % names[k])
+        got = rows_used(v.term)
+        S.add(I, "cell_abc_alpha_beta_gamma/%s-is-computed-from-cell-rows-%s" % (names[k], '-'.join(str(x) for x in sorted(w))), [], z3.BoolVal(got == w),
+              clause='cell lengths and angles in the order a, b, c, alpha (b^c), beta (a^c), gamma (a^b)')
     S.add_interp_obligations(I)
